@@ -13,7 +13,7 @@ from atoms_io import KINDS
 
 
 def make_runs(run):
-    n = 40 if run.tier == "quick" else 600
+    n = 40 if run.tier == "quick" else 240
     runs = []
     k = 0
     while len(runs) < n and k < 30 * n:
